@@ -41,6 +41,15 @@ theorem inv_step (s : St) (a : Act) (s' : St) (h : Inv s) (hN : s.unmapPending =
   obtain ⟨⟨hd1, hd2⟩, hV, hC, hD, hB, hO⟩ := h
   cases a with
   | staleUnmap => simp [step, hN] at hs
+  | exit =>
+    simp only [step, repaired] at hs
+    cases hl : s.live with
+    | true => simp [hl] at hs
+    | false =>
+      simp [hl] at hs; subst hs
+      refine ⟨⟨fun hc => by simp at hc, fun _ => hd2 (by simp [hl])⟩, ?_, hC, ?_, hB, hO⟩
+      · intro t ht; have := (hV t ht).2.1; rw [hl] at this; simp at this
+      · intro t ht; have := (hD t ht).2.1; rw [hl] at this; simp at this
   | summon t =>
     simp only [step, repaired] at hs
     split at hs
@@ -424,6 +433,10 @@ theorem pending_step (s : St) (a : Act) (s' : St) (hN : s.unmapPending = false) 
     · simp only [h0] at hs; simp at hs; subst hs; simp [hN]
     · simp [h0] at hs
   | staleUnmap => simp [step, hN] at hs
+  | exit =>
+    simp only [step, repaired] at hs
+    cases hl : s.live <;> simp [hl] at hs
+    subst hs; exact hN
 
 /-- For the repaired protocol every acknowledged, not deleted write is durable in every reachable
     state — in particular whenever the swamp is re-opened after a close or a destroy. -/
@@ -450,21 +463,21 @@ def witnessDestroy : List Act :=
 /-- the same schedule when summon already takes the vigil (no separate begin step) -/
 def witnessDestroyA : List Act := [.summon 1, .summon 2, .del 2 1, .write 1 5, .cease 1, .destroyFinish 2]
 
-theorem destroy_loses_acked_write (as w : Bool) :
-    (run { destroyRechecks := false, atomicSummon := as, summonWaitsForUnmap := w } (init [1])
+theorem destroy_loses_acked_write (as w x : Bool) :
+    (run { destroyRechecks := false, atomicSummon := as, summonWaitsForUnmap := w, stopWaitsUntilClosed := x } (init [1])
       (if as then witnessDestroyA else witnessDestroy)).map
       (fun s => (s.live, s.file, s.acked)) = some (false, [], [5]) := by
-  cases as <;> cases w <;> decide
+  cases as <;> cases w <;> cases x <;> decide
 
 /-- (2) the listener reads a stale last-interaction time; a request summons the instance; the
     listener closes it; the request's write lands in the closed instance. -/
 def witnessIdle : List Act :=
   [.summon 9, .begin 9, .cease 9, .tickRead, .summon 1, .tickDecide, .closeFlush, .closeDone, .begin 1, .write 1 5]
 
-theorem idle_close_loses_acked_write (dr w : Bool) :
-    (run { destroyRechecks := dr, atomicSummon := false, summonWaitsForUnmap := w } (init [1]) witnessIdle).map
+theorem idle_close_loses_acked_write (dr w x : Bool) :
+    (run { destroyRechecks := dr, atomicSummon := false, summonWaitsForUnmap := w, stopWaitsUntilClosed := x } (init [1]) witnessIdle).map
       (fun s => (s.live, s.file, s.acked)) = some (false, [1], [1, 5]) := by
-  cases dr <;> cases w <;> decide
+  cases dr <;> cases w <;> cases x <;> decide
 
 /-- (3) an idle close has flushed the instance; a request summons, does not wait for the map entry to go away and
     gets a fresh instance; the old instance's close callback then removes *that* instance from the map; the
@@ -472,8 +485,15 @@ theorem idle_close_loses_acked_write (dr w : Bool) :
 def witnessUnmap : List Act :=
   [.summon 9, .cease 9, .tickRead, .tickDecide, .closeFlush, .summon 1, .write 1 5, .cease 1, .staleUnmap]
 
-theorem stale_unmap_loses_acked_write :
-    (run { destroyRechecks := true, atomicSummon := true, summonWaitsForUnmap := false } (init [1]) witnessUnmap).map
+theorem stale_unmap_loses_acked_write (x : Bool) :
+    (run { destroyRechecks := true, atomicSummon := true, summonWaitsForUnmap := false, stopWaitsUntilClosed := x } (init [1]) witnessUnmap).map
+      (fun s => (s.live, s.file, s.acked)) = some (false, [1], [1, 5]) := by cases x <;> decide
+
+/-- (4) GracefulStop returns while the swamp is still mapped (its close has not flushed yet) and the process exits -/
+def witnessExit : List Act := [.summon 1, .write 1 5, .cease 1, .exit]
+
+theorem early_exit_loses_acked_write :
+    (run { destroyRechecks := true, atomicSummon := true, summonWaitsForUnmap := true, stopWaitsUntilClosed := false } (init [1]) witnessExit).map
       (fun s => (s.live, s.file, s.acked)) = some (false, [1], [1, 5]) := by decide
 
 theorem refute (c : Cfg) (file : List Nat) (sched : List Act) (f a : List Nat)
@@ -501,6 +521,8 @@ structure Facts where
   /-- SummonSwamp goes back to look at the swamp map after WaitForGracefulClose (it does not create an instance
       while the closing one is still mapped) -/
   summonWaitsForUnmap : Tri
+  /-- hydra.GracefulStop leaves its wait loop only when CountActiveSwamps() is 0 (or after the forced close) -/
+  stopWaitsUntilClosed : Tri
   /-- (not used by `classify`; the schedule driver uses it) SaveFunction drops a queued delete marker when a key
       is re-created and deleteHandler queues a marker only for an object that has a file pointer -/
   recreateDropsDeleteMarker : Tri
@@ -509,24 +531,28 @@ structure Facts where
 def cfgOf (f : Facts) : Cfg :=
   { destroyRechecks := f.destroyRechecksAfterDrain.isYes,
     atomicSummon := f.listenerReadsTouchUnderLock.isYes && f.summonTakesVigil.isYes,
-    summonWaitsForUnmap := !f.summonWaitsForUnmap.isNo }
+    summonWaitsForUnmap := !f.summonWaitsForUnmap.isNo,
+    stopWaitsUntilClosed := !f.stopWaitsUntilClosed.isNo }
 
 def findings (c : Cfg) : List String :=
   (if c.destroyRechecks then [] else ["C16-auto-destroy-loses-acked-write"]) ++
   (if c.atomicSummon then [] else ["C16-idle-close-loses-acked-write"]) ++
-  (if c.summonWaitsForUnmap then [] else ["C16-summon-replaces-closing-instance"])
+  (if c.summonWaitsForUnmap then [] else ["C16-summon-replaces-closing-instance"]) ++
+  (if c.stopWaitsUntilClosed then [] else ["C16-stop-returns-before-swamps-closed"])
 
 def classify (f : Facts) : Verdict :=
   if f.destroyRechecksAfterDrain = .unknown then .undetermined "autoDestroy.rechecksAfterDrain" else
   if f.listenerReadsTouchUnderLock = .unknown then .undetermined "listener.readsTouchUnderLock" else
   if f.summonTakesVigil = .unknown then .undetermined "summon.takesVigil" else
   if f.summonWaitsForUnmap = .unknown then .undetermined "summon.waitsForUnmap" else
+  if f.stopWaitsUntilClosed = .unknown then .undetermined "gracefulStop.waitsUntilClosed" else
   match findings (cfgOf f) with
   | [] => .holds
   | fs => .violated fs
 
 theorem classify_sound (f : Facts) : (classify f).Sound (Holds (cfgOf f)) := by
   unfold classify
+  split; · trivial
   split; · trivial
   split; · trivial
   split; · trivial
@@ -539,33 +565,45 @@ theorem classify_sound (f : Facts) : (classify f).Sound (Holds (cfgOf f)) := by
       cases hx : (cfgOf f).atomicSummon <;> simp [findings, hx] at hf ⊢
     have h3 : (cfgOf f).summonWaitsForUnmap = true := by
       cases hx : (cfgOf f).summonWaitsForUnmap <;> simp [findings, hx] at hf ⊢
+    have h4 : (cfgOf f).stopWaitsUntilClosed = true := by
+      cases hx : (cfgOf f).stopWaitsUntilClosed <;> simp [findings, hx] at hf ⊢
     have : cfgOf f = repaired := by
-      cases hc : cfgOf f; simp [hc] at h1 h2 h3; simp [repaired, h1, h2, h3]
+      cases hc : cfgOf f; simp [hc] at h1 h2 h3 h4; simp [repaired, h1, h2, h3, h4]
     show Holds (cfgOf f)
     rw [this]; exact durable_repaired
   · rename_i fs hne
     refine ⟨?_, trivial⟩
     by_cases h1 : (cfgOf f).destroyRechecks = false
     · have hc : cfgOf f = { destroyRechecks := false, atomicSummon := (cfgOf f).atomicSummon,
-                            summonWaitsForUnmap := (cfgOf f).summonWaitsForUnmap } := by
+                            summonWaitsForUnmap := (cfgOf f).summonWaitsForUnmap,
+                            stopWaitsUntilClosed := (cfgOf f).stopWaitsUntilClosed } := by
         cases hcc : cfgOf f; simp [hcc] at h1; simp [h1]
       rw [hc]
-      exact refute _ [1] _ [] [5] (destroy_loses_acked_write _ _) ⟨5, by simp, by simp⟩
+      exact refute _ [1] _ [] [5] (destroy_loses_acked_write _ _ _) ⟨5, by simp, by simp⟩
     · have h1' : (cfgOf f).destroyRechecks = true := by simpa using h1
       by_cases h2 : (cfgOf f).atomicSummon = false
       · have hc : cfgOf f = { destroyRechecks := (cfgOf f).destroyRechecks, atomicSummon := false,
-                              summonWaitsForUnmap := (cfgOf f).summonWaitsForUnmap } := by
+                              summonWaitsForUnmap := (cfgOf f).summonWaitsForUnmap,
+                              stopWaitsUntilClosed := (cfgOf f).stopWaitsUntilClosed } := by
           cases hcc : cfgOf f; simp [hcc] at h2; simp [h2]
         rw [hc]
-        exact refute _ [1] _ [1] [1, 5] (idle_close_loses_acked_write _ _) ⟨5, by simp, by simp⟩
+        exact refute _ [1] _ [1] [1, 5] (idle_close_loses_acked_write _ _ _) ⟨5, by simp, by simp⟩
       · have h2' : (cfgOf f).atomicSummon = true := by simpa using h2
-        have h3 : (cfgOf f).summonWaitsForUnmap = false := by
-          cases hx : (cfgOf f).summonWaitsForUnmap with
-          | false => rfl
-          | true => exfalso; apply hne; simp [findings, h1', h2', hx]
-        have hc : cfgOf f = { destroyRechecks := true, atomicSummon := true, summonWaitsForUnmap := false } := by
-          cases hcc : cfgOf f; simp [hcc] at h1' h2' h3; simp [h1', h2', h3]
-        rw [hc]
-        exact refute _ [1] _ [1] [1, 5] stale_unmap_loses_acked_write ⟨5, by simp, by simp⟩
+        by_cases h3 : (cfgOf f).summonWaitsForUnmap = false
+        · have hc : cfgOf f = { destroyRechecks := true, atomicSummon := true, summonWaitsForUnmap := false,
+                                stopWaitsUntilClosed := (cfgOf f).stopWaitsUntilClosed } := by
+            cases hcc : cfgOf f; simp [hcc] at h1' h2' h3; simp [h1', h2', h3]
+          rw [hc]
+          exact refute _ [1] _ [1] [1, 5] (stale_unmap_loses_acked_write _) ⟨5, by simp, by simp⟩
+        · have h3' : (cfgOf f).summonWaitsForUnmap = true := by simpa using h3
+          have h4 : (cfgOf f).stopWaitsUntilClosed = false := by
+            cases hx : (cfgOf f).stopWaitsUntilClosed with
+            | false => rfl
+            | true => exfalso; apply hne; simp [findings, h1', h2', h3', hx]
+          have hc : cfgOf f = { destroyRechecks := true, atomicSummon := true, summonWaitsForUnmap := true,
+                                stopWaitsUntilClosed := false } := by
+            cases hcc : cfgOf f; simp [hcc] at h1' h2' h3' h4; simp [h1', h2', h3', h4]
+          rw [hc]
+          exact refute _ [1] _ [1] [1, 5] early_exit_loses_acked_write ⟨5, by simp, by simp⟩
 
 end Hv.C16
